@@ -857,6 +857,60 @@ func c19WireRequired(cases *verifx.Cases) {
 			return err
 		}, [][]string{{"completion", "values"}}},
 	}
+	// a page that turns out empty: the cursor of the first page (page size 1, items a and b) is followed after
+	// b has been removed - the list member is still an array
+	noopTool := func(context.Context, *CallToolRequest) (*CallToolResult, error) { return &CallToolResult{}, nil }
+	noopPrompt := func(context.Context, *GetPromptRequest) (*GetPromptResult, error) { return &GetPromptResult{}, nil }
+	noopRead := func(context.Context, *ReadResourceRequest) (*ReadResourceResult, error) { return &ReadResourceResult{}, nil }
+	mkPaged := func() *Server {
+		ps := NewServer(&Implementation{Name: "paged", Version: "1"}, &ServerOptions{Logger: quietLogger, PageSize: 1})
+		for _, n := range []string{"a", "b"} {
+			ps.AddTool(&Tool{Name: n, InputSchema: map[string]any{"type": "object"}}, noopTool)
+			ps.AddPrompt(&Prompt{Name: n}, noopPrompt)
+			ps.AddResource(&Resource{URI: "file:///" + n, Name: n}, noopRead)
+			ps.AddResourceTemplate(&ResourceTemplate{URITemplate: "file:///" + n + "/{x}", Name: n}, noopRead)
+		}
+		return ps
+	}
+	pt, pp, pr, ptm := mkPaged(), mkPaged(), mkPaged(), mkPaged()
+	probes = append(probes,
+		probe{"tools/list page behind a stale cursor", pt, func(cs *ClientSession) error {
+			r, err := cs.ListTools(ctx, nil)
+			if err != nil {
+				return err
+			}
+			pt.RemoveTools("b")
+			_, err = cs.ListTools(ctx, &ListToolsParams{Cursor: r.NextCursor})
+			return err
+		}, [][]string{{"tools"}}},
+		probe{"prompts/list page behind a stale cursor", pp, func(cs *ClientSession) error {
+			r, err := cs.ListPrompts(ctx, nil)
+			if err != nil {
+				return err
+			}
+			pp.RemovePrompts("b")
+			_, err = cs.ListPrompts(ctx, &ListPromptsParams{Cursor: r.NextCursor})
+			return err
+		}, [][]string{{"prompts"}}},
+		probe{"resources/list page behind a stale cursor", pr, func(cs *ClientSession) error {
+			r, err := cs.ListResources(ctx, nil)
+			if err != nil {
+				return err
+			}
+			pr.RemoveResources("file:///b")
+			_, err = cs.ListResources(ctx, &ListResourcesParams{Cursor: r.NextCursor})
+			return err
+		}, [][]string{{"resources"}}},
+		probe{"resources/templates/list page behind a stale cursor", ptm, func(cs *ClientSession) error {
+			r, err := cs.ListResourceTemplates(ctx, nil)
+			if err != nil {
+				return err
+			}
+			ptm.RemoveResourceTemplates("file:///b/{x}")
+			_, err = cs.ListResourceTemplates(ctx, &ListResourceTemplatesParams{Cursor: r.NextCursor})
+			return err
+		}, [][]string{{"resourceTemplates"}}},
+	)
 	for _, p := range probes {
 		idx, mine := cases.Next()
 		if !mine {
